@@ -424,7 +424,7 @@ class Interp:
             key = cur[1]
             a = st.env.get(key)
             if a is not None:
-                if a in G.obj and G.obj[a][0] == "array":
+                if a in G.obj and G.obj[a][0] in ("array", "vec"):
                     return Agg(key)        # carries its ghost "initialised prefix" sub-cell
                 return a
             if has_sub(st, key):
@@ -519,15 +519,40 @@ class Interp:
 
     # -- raw memory -------------------------------------------------------------
     def region_cap(self, st, region):
+        """static capacity of a region: an int, or for the buffer of a heap vector the lower bound of its capacity atom"""
         if region[0] == "loc":
             return region[2]
         if region[0] == "const":
             return region[2]
+        if region[0] == "heap":
+            c = st.env.get(tuple(region[1]) + (("g", "vcap"),))
+            return st.get_iv(c)[0] if is_int(c) else None
         return None
+
+    def within_cap(self, st, region, end_atom, end_hi):
+        """end <= capacity of the region (for a heap vector: either below the lower bound of the capacity or related to its atom)"""
+        cap = self.region_cap(st, region)
+        if cap is not None and end_hi <= cap:
+            return True, cap
+        if region[0] == "heap":
+            c = st.env.get(tuple(region[1]) + (("g", "vcap"),))
+            if is_int(c) and end_atom is not None and is_int(end_atom):
+                if st.diff_le(end_atom, c, 0):
+                    return True, "capacity atom %s" % (st.get_iv(c),)
+                # end <= end + y <= capacity for a non-negative y (shl_limbs: `n + len <= capacity` guards offsets n and n + len)
+                for (x, y), k in st.facts.items():
+                    if y == c and k <= 0:
+                        dx = G.df.get(x)
+                        if dx and dx[0] == "add" and end_atom in (dx[1], dx[2]):
+                            other = dx[2] if end_atom == dx[1] else dx[1]
+                            if st.get_iv(other)[0] >= 0:
+                                return True, "capacity atom %s via %s" % (st.get_iv(c), "sum bound")
+            return False, ("capacity atom %s" % (st.get_iv(c),)) if is_int(c) else None
+        return False, cap
 
     def buf_init_key(self, region):
         # ghost "initialised prefix" of an array cell lives in env as a pseudo-field, so it moves with the value
-        return tuple(region[1]) + (("g", "init"),) if region[0] == "loc" else None
+        return tuple(region[1]) + (("g", "init"),) if region[0] in ("loc", "heap") else None
 
     def raw_access(self, st, inst, span, cur, write, count=None):
         """element access through a raw pointer into a tracked buffer: offset (+count) within capacity;
@@ -545,8 +570,10 @@ class Interp:
         detail = ""
         if cap is not None and io is not None:
             end_hi = self.sum_hi(st, off, cnt_atom) if cnt_atom is not None else io[1] + 1
-            ok = io[0] >= 0 and end_hi <= cap
-            detail = "offset %s count<=%s end<=%s capacity %s" % (io, n_hi, end_hi, cap)
+            end_atom = self.sum_atom(st, off, cnt_atom if cnt_atom is not None else const_int(1))
+            okc, capd = self.within_cap(st, region, end_atom, end_hi)
+            ok = io[0] >= 0 and okc
+            detail = "offset %s count<=%s end<=%s capacity %s" % (io, n_hi, end_hi, capd)
         else:
             detail = "untracked region %s" % (region[0],)
         self.ctx.oblige("raw-write-in-capacity" if write else "raw-read-in-capacity", ok, inst, span, detail)
@@ -1048,9 +1075,9 @@ class Interp:
             return new_top()
         if d[0] == "buf":
             off = self.sum_atom(st, d[2], n)
-            cap = self.region_cap(st, d[1])
             io = st.get_iv(off) if off is not None else None
-            ok = io is not None and cap is not None and io[0] >= 0 and io[1] <= cap
+            okc, cap = self.within_cap(st, d[1], off, io[1]) if io is not None else (False, None)
+            ok = io is not None and io[0] >= 0 and okc
             self.ctx.oblige("ptr-offset-in-bounds", ok, inst, span, "offset %s capacity %s" % (io, cap))
             return new_ptr(("buf", d[1], off if off is not None else new_int(0, INF)))
         self.ctx.oblige("ptr-offset-in-bounds", False, inst, span, "pointer arithmetic on %s" % d[0])
